@@ -25,6 +25,10 @@ type caseResult struct {
 	Fail   *stepFail      `json:"fail,omitempty"`
 	Probes int            `json:"probes"`
 	Outs   map[string]int `json:"outs,omitempty"` // histogram of comparison classes
+	// second open finding (does not end the history): trap probes whose stack trace lacks exactly the frame of a module
+	// whose compiled code was closed
+	Known2   int    `json:"known2,omitempty"`
+	Known2Ex string `json:"known2_ex,omitempty"`
 }
 
 func (s state) anyClosed() bool {
@@ -68,7 +72,7 @@ func judge(test, twin string, s state) (class, kind string) {
 		return "", badKind(test)
 	}
 	if test == twin {
-		if strings.HasPrefix(test, "trap:") {
+		if strings.HasPrefix(test, "trap:") || strings.HasPrefix(test, "T:") {
 			return "same-trap", ""
 		}
 		return "same-value", ""
@@ -82,6 +86,44 @@ func judge(test, twin string, s state) (class, kind string) {
 	return "", "diverged"
 }
 
+const knownSig2 = "stacktrace:frame-of-closed-compiled-module-missing"
+
+// frameModule maps the first frame of a trap probe's stack trace (the function finally reached) to its module.
+func frameModule(line string) int {
+	for i, p := range []string{".g(", ".k(", ".c(", ".d("} {
+		if strings.HasPrefix(line, p) {
+			return i
+		}
+	}
+	return -1
+}
+
+// explainedByClosedCode: the world under test's trap text equals the twin's with exactly the frame of the reached
+// function removed, and the model says why: that function's module M was deleted from the wazevo engine
+// (CompiledModule.Close of M, or the engine was closed), M is not the entry module y and not a direct import of y
+// (wazevo/call_engine.go addFrame can only fall back to those). The compiled code itself is still alive and runs.
+func explainedByClosedCode(test, twin string, s state, y int) bool {
+	if !strings.HasPrefix(test, "T:") || !strings.HasPrefix(twin, "T:") {
+		return false
+	}
+	tl := strings.Split(twin, " | ")
+	for i, l := range tl {
+		if l != "wasm stack trace:" || i+1 >= len(tl) {
+			continue
+		}
+		m := frameModule(tl[i+1])
+		if m < 0 || m == y || (y == mB && m == mA) {
+			return false
+		}
+		if !(s.CacheClosed || (m < 3 && s.Comp[m])) {
+			return false
+		}
+		d := append(append([]string{}, tl[:i+1]...), tl[i+2:]...)
+		return strings.Join(d, " | ") == test
+	}
+	return false
+}
+
 // twinHost keeps one twin runtime per engine for the life of the child process: nothing is ever closed in the twin,
 // so only its instances are per history.
 type twinHost struct {
@@ -90,7 +132,7 @@ type twinHost struct {
 
 func (t *twinHost) get(eng int) *world {
 	if t.w[eng] == nil {
-		t.w[eng] = newWorld(false, eng, false, [3]bool{true, true, true})
+		t.w[eng] = newWorld(false, eng, false, [3]bool{true, true, true}, 0)
 	}
 	return t.w[eng]
 }
@@ -153,7 +195,9 @@ func runTwin(tw *world, h history, ps state) (tt twinTrace) {
 				continue
 			}
 			for _, fn := range probeFns[x] {
-				_, tt.probes[modNames[x]+"."+fn+"#"+phase] = tw.call(x, fn)
+				for mode, sfx := range probeModes {
+					tt.probes[modNames[x]+"."+fn+sfx+"#"+phase] = tw.probe(x, fn, uint64(mode))
+				}
 			}
 		}
 	}
@@ -161,6 +205,7 @@ func runTwin(tw *world, h history, ps state) (tt twinTrace) {
 }
 
 var probePhases = []string{"probe", "probe-after-gc"}
+var probeModes = []string{"", "!trap"} // site suffix for mode 0 (value) and mode 1 (the function finally reached traps)
 
 // execHistory runs h on engine eng. mark is called before every step that can fault.
 func execHistory(h history, eng int, mark func(step int, site, phase string)) (res caseResult) {
@@ -178,7 +223,7 @@ func execHistory(h history, eng int, mark func(step int, site, phase string)) (r
 			need[o.X] = true
 		}
 	}
-	w := newWorld(true, eng, h.Init.NoCache, need)
+	w := newWorld(true, eng, h.Init.NoCache, need, h.compileOrder())
 	tainted := false
 	defer func() {
 		w.teardown()
@@ -213,7 +258,7 @@ func execHistory(h history, eng int, mark func(step int, site, phase string)) (r
 			} else if t := tt.ops[k]; t != "ok" {
 				fw.Fatalf("twin: %s: %s", o, t)
 			}
-		case kFresh, kCloseInst, kCloseComp, kCloseCache, kCloseRt, kDrop, kGC:
+		case kFresh, kCloseInst, kCloseComp, kCloseCache, kCloseRt, kDrop, kGC, kCloseFiller:
 			operr = test != "ok"
 		case kStore:
 			t := tt.ops[k]
@@ -284,16 +329,25 @@ func execHistory(h history, eng int, mark func(step int, site, phase string)) (r
 				continue
 			}
 			for _, fn := range probeFns[x] {
-				site := modNames[x] + "." + fn
-				mark(len(h.Ops), site, phase)
-				_, test := w.call(x, fn)
-				twin := tt.probes[site+"#"+phase]
-				res.Probes++
-				cl, kind := judge(test, twin, s)
-				if kind != "" {
-					return fail(len(h.Ops), site, phase, kind, test, twin)
+				for mode, sfx := range probeModes {
+					site := modNames[x] + "." + fn + sfx
+					mark(len(h.Ops), site, phase)
+					test := w.probe(x, fn, uint64(mode))
+					twin := tt.probes[site+"#"+phase]
+					res.Probes++
+					cl, kind := judge(test, twin, s)
+					if kind == "diverged" && explainedByClosedCode(test, twin, s, x) {
+						res.Known2++
+						if res.Known2Ex == "" {
+							res.Known2Ex = fmt.Sprintf("%s (%s): %q instead of %q", site, phase, test, twin)
+						}
+						cl, kind = "known:stack-frame-of-closed-code-missing", ""
+					}
+					if kind != "" {
+						return fail(len(h.Ops), site, phase, kind, test, twin)
+					}
+					res.Outs[cl+sfx]++
 				}
-				res.Outs[cl]++
 			}
 		}
 		// nothing may have written into memory that was collected and handed out again
@@ -330,7 +384,7 @@ func modStatus(s state, x int) string {
 // executing instance, what the slots it reads hold and the state of their owners, and the failure kind.
 // s is the model state in which the failing call ran (after the operation, for operations).
 func classify(s state, eng int, f stepFail) (sig string, known bool) {
-	slots := siteSlots[f.Site]
+	slots := siteSlots[strings.TrimSuffix(f.Site, "!trap")]
 	dang := map[int]bool{}
 	for _, d := range s.dangling() {
 		dang[d] = true
